@@ -28,7 +28,8 @@ def _plain(o):
 
 
 def write(prop, tier, seed, coverage, wall_s, violations, assumptions, level="model_checking"):
-    os.makedirs(os.path.join(VERIF, "evidence"), exist_ok=True)
+    edir = os.environ.get("VERIF_EVIDENCE_DIR") or os.path.join(VERIF, "evidence")
+    os.makedirs(edir, exist_ok=True)
     doc = {
         "property_id": prop,
         "tier": tier,
@@ -39,7 +40,7 @@ def write(prop, tier, seed, coverage, wall_s, violations, assumptions, level="mo
         "wall_s": round(float(wall_s), 2),
         "violations": int(violations),
     }
-    path = os.path.join(VERIF, "evidence", f"{prop}.json")
+    path = os.path.join(edir, f"{prop}.json")
     with open(path, "w") as f:
         json.dump(doc, f, indent=1, sort_keys=False)
     return path
